@@ -685,8 +685,13 @@ class t2listing(object):
         """Parses line of a table and returns starting indices of each column"""
         numpos = [start]
         if columns[0] == 'I': # e.g. ECO2M element table
-          spos = line.find(' ', start + 1)
-          if spos >= 0: numpos.append(spos)
+          # end of the integer: skip blanks, a sign, then digits (the next
+          # value may follow directly, with a minus sign and no blank)
+          spos = start
+          while spos < len(line) and line[spos] == ' ': spos += 1
+          if spos < len(line) and line[spos] == '-': spos += 1
+          while spos < len(line) and line[spos].isdigit(): spos += 1
+          numpos.append(spos)
         from re import finditer,escape
         # find all decimal points:
         pts = [match.start() for match in finditer(escape('.'), line)]
